@@ -9,7 +9,8 @@ from odxgen import values as V
 ID = "C01"
 # LEAN_TARGETS / THEOREMS: filled in by the author of lean/OdxVerif/Model/Codec.lean + Props/C01.lean
 # (planned: OdxVerif.Props.C01, theorems OdxVerif.Codec.C01_roundtrip[_partial], …)
-LEAN_TARGETS = ['OdxVerif.Props.C01', 'OdxVerif.Props.C01Fields', 'OdxVerif.Props.C01Nested', 'OdxVerif.Props.C01Compu', 'OdxVerif.Props.C01DynLeaves']
+LEAN_TARGETS = ['OdxVerif.Props.C01', 'OdxVerif.Props.C01Fields', 'OdxVerif.Props.C01Nested', 'OdxVerif.Props.C01Compu', 'OdxVerif.Props.C01DynLeaves',
+                'OdxVerif.Props.C01Nested2', 'OdxVerif.Props.C01LengthKey']
 DRIVERS = ["drv_codec"]
 THEOREMS = ["OdxVerif.Codec." + t for t in ['C01_roundtrip_struct', 'C01_roundtrip_mux', 'C01_mux_default_key', 'MuxLeaf.sel_of_case', 'MuxLeaf.sel_of_default', 'MuxLeaf.encode_eq', 'MuxLeaf.decode_eq', 'C01_roundtrip_flat', 'C01_roundtrip_partial', 'C01_frame', 'tree_roundtrip', 'flat_core', 'Tree.encode_eq', 'Tree.decode_eq', 'Trees.good',
                                             # field tier (Props/C01Fields.lean, Proofs/FieldTier*.lean)
@@ -39,6 +40,32 @@ THEOREMS += ["OdxVerif.Codec." + t for t in [
     'encodeDct_minmax', 'decodeDct_minmax', 'mm_byteLen', 'MMLeaf.toMid_ok', 'MMLeaf.gFull_ok', 'MMLeaf.gLast_ok',
     'encodeDct_leading', 'decodeDct_leading', 'LeadLeaf.toG_ok', 'Good.reDec', 'Good.thenRaw', 'Good.bytesAt',
     'Good.rawSkip', 'encodeParam_keeps_eop_false', 'k_encode_all']]
+# nested tier, extension W11 (Props/C01Nested2.lean, Proofs/CompExt*.lean): the decoder's cursor, BYTE-SIZE structures, leaves of
+# input-dependent size at any depth, MATCHING-REQUEST-PARAM, DYNAMIC-ENDMARKER-FIELD
+THEOREMS += ["OdxVerif.Codec." + t for t in [
+    'C01_roundtrip_nested_consumes', 'C01_roundtrip_nested_whole', 'C01_roundtrip_nested2', 'C01_roundtrip_nested2_whole',
+    'C01_roundtrip_bytesize', 'C01_roundtrip_nested2_of_described', 'Described.to2', 'Described2.ok', 'DescribedTop.ok', 'mcomps_roundtrip_msg_cur', 'roundtrip_msg_core',
+    'dcomp_roundtrip_msg_cur', 'comps_roundtrip_msg_cur', 'comps_roundtrip_msg_pre_cur',
+    'Good.sized', 'bsPad_frame', 'DComp.withByteSize_okM', 'DComp.withByteSize_ok', 'DComp.structBS_ok', 'DComp.structOM_okM',
+    'DComp.structOM_ok',
+    'MComps.encode_eq', 'DComp.structM_encode_eq', 'DComp.structM_okM', 'DComp.structM_ok', 'Comp.ofMItem_ok', 'Comp.ofMinMaxMid_ok',
+    'Comp.ofMinMaxFull_ok', 'Comp.ofMinMaxLast_ok', 'Comp.ofLeading_ok', 'ModelInv.top',
+    'encodeParam_keeps_trig', 'kt_encode_all', 'encodeParam_keeps_usedCovers', 'ku_encode_all',
+    'Good.rawAt', 'Comp.matchingReq_ok',
+    'encodeDop_std_cursorBit', 'Good.peek', 'emProbe_miss', 'emProbe_hit', 'decodeUntilMarkerC_eq', 'DComp.endMarkerEop_ok',
+    'DComp.endMarkerMid_ok', 'Comp.ofValueM_ok', 'EmLayout.miss_of_first', 'EmLayout.miss_withByteSize',
+    'encodeDop_keeps_eop_false', 'encodeStaticItemsM_eq', 'decodeStaticItemsM_eq', 'DComp.staticFieldM_ok', 'DComp.mux_okM', 'encodeItemsM_eq', 'DComp.dynLenFieldM_okM', 'DComp.eopFieldM_ok',
+    'ex2_described', 'ex2St_described', 'ex2Tail_described', 'ex3_described', 'ex4_described', 'ex5_described', 'ex6_described']]
+# LENGTH-KEY tier: the two-pass encoder (Props/C01LengthKey.lean, Proofs/CompKey*.lean)
+THEOREMS += ["OdxVerif.Codec." + t for t in [
+    'C01_roundtrip_lengthkey', 'kitems_roundtrip_msg', 'KItems.encode1', 'KItems.encode2', 'KItems.decode_eq',
+    'KItems.decPre_intro', 'KItems.good', 'enc2_cells', 'enc2_frame', 'Good.hole', 'encodeKeyPlaceholder_none',
+    'encodeKeyPlaceholder_some', 'encodeDop_key', 'decodeParam_key', 'PLUser.encodeParam_eq', 'PLUser.decodeParam_eq',
+    'PLUser.good', 'Obj.encodeParam_pl', 'Obj.decodeParam_pl', 'encKeeps', 'decKeeps', 'Comp.keyFree_of_noKeys',
+    'Comp.KOk.ofKeyFree', 'Comp.kstruct_kok', 'KItems.goodS', 'KItems.dec_consistent', 'Comp.ofObjValue_keyFree',
+    'Comp.ofObjConst_keyFree', 'KeyDop.identical', 'KeyDop.linear', 'KeyDop.placeholder_none', 'KeyDop.placeholder_some',
+    'KeyDop.decodeParam_eq', 'lkExKeyItems_ok', 'lkExKeyItems_side', 'lkExStruct_ok', 'lkExNestItems_ok', 'lkExNestItems_side',
+    'lkExKeyB_keyDop', 'lkExByteItems_ok', 'lkExByteItems_side', 'C01_lengthkey_shadow_counterexample']]
 RULE = ("well-formed descriptions (envelope wf of DESIGN §6/C01, by construction in harness/odxgen/gen.py) x canonical values "
         "(odxgen/values.py): corpus of past failures; every BYTE-SIZE structure size x offset; every (integer type, encoding, byte order, "
         "bit length, bit position) standard-length DOP with boundary values; floats/strings/byte fields x encodings x byte orders; random "
@@ -64,6 +91,25 @@ ASSUMPTIONS = ["'the encoder accepts' = encode returns without exception; on wel
                "LINEAR compu methods are generated with |num0 + num1*x| < 2^53 (float rounding is outside the property)",
                "length/table keys are not generated inside repeated field items (EncodeState.length_keys is global per PDU; odxtools rejects "
                "differing values, which is an encoder rejection, not a round-trip failure)"]
+
+
+# --- tie of kind (1) (task W15): Gen/MuxDefaultKey.lean is regenerated from Multiplexer._get_default_case_key of the current source by
+# the Python->Lean translator and proved equal to the hand-written defaultCaseKey (Proofs/MuxDefaultKeyGenEq.lean)
+LEAN_TARGETS = LEAN_TARGETS + ["OdxVerif.Props.C01Gen"]
+THEOREMS = THEOREMS + ["OdxVerif.Codec." + t for t in ["gen_defaultCaseKey_eq", "sortedIntPair_eq_foldl", "C01_gen_mux_default_key"]]
+TRUSTED = TRUSTED + ["translator harness/extract/py2lean.py + primitives lean/OdxVerif/Model/PyRt.lean for Multiplexer._get_default_case_key "
+                     "(self.cases / self._get_case_limits(x) are an abstract record interface of the rendering: the model's case list with "
+                     "integer limits; sorted() of integer pairs = Py.sortedIntPair, lexicographic)"]
+
+
+def regen_mux_default_key(ctx):
+    """Gen/MuxDefaultKey.lean from the current source; Unsupported (source left the translator's subset) = broken obligation"""
+    import common
+    from extract import py2lean
+    py2lean.regenerate_muxkey(common.REPO, common.VERIF)
+
+
+GENERATORS = list(globals().get("GENERATORS", [])) + [regen_mux_default_key]
 
 
 # ------------------------------------------------------------------ corpus (defects of the pinned commit, minimised)
@@ -350,6 +396,21 @@ def finding_corpus():
                 {"s": "a", "y": 0x77}, None,
                 "MIN-MAX-LENGTH A_UNICODE2STRING with an odd MAX-LENGTH: a value of MAX-LENGTH - 1 bytes is written with its two-byte terminator, "
                 "which straddles the decoder's search bound orig + MAX-LENGTH, so the decoder reads MAX-LENGTH bytes and fails (DecodeError)"))
+    # forced by the proof of DComp.withByteSize_ok (W11): the encoder never checks that the content fits into BYTE-SIZE
+    mmz = D.SimpleDop(D.MinMax("A_BYTEFIELD", 0, 8, "ZERO"), "A_BYTEFIELD")
+    out.append(("byte-size-structure-content-too-long",
+                D.Composite("RQ", "request", [D.sid(), D.value("st", D.Struct([D.value("s", mmz)], bytesize=3)), D.value("y", D.u8())]),
+                {"st": {"s": bytes([1, 2, 3])}, "y": 0x77}, None,
+                "a STRUCTURE with BYTE-SIZE whose content (here a terminated MIN-MAX byte field) is longer than BYTE-SIZE is encoded without any check "
+                "(22 01 02 03 00 77), the decoder rejects the PDU ('Attempted to decode too large instance of structure')"))
+    # forced by the proof of C01_roundtrip_lengthkey (W13, hypothesis `apart`): length_keys / key_pos are keyed by SHORT-NAME for the whole PDU
+    k4 = lambda bp: D.length_key("len", D.u8(4), bitpos=bp)
+    pl = lambda: D.SimpleDop(D.ParamLen("A_BYTEFIELD", "len"), "A_BYTEFIELD")
+    out.append(("length-key-same-short-name-nested",
+                D.Composite("RQ", "request", [D.sid(0x2E), k4(4), D.value("st", D.Struct([k4(0), D.value("data", pl())])), D.value("d1", pl()), D.value("y", D.u8())]),
+                {"st": {"data": bytes([1])}, "d1": bytes([0xAA]), "y": 0x77}, None,
+                "a nested structure with a LENGTH-KEY of the same short name as a key of the enclosing request overwrites the outer key's recorded "
+                "position: 2e 00 88 01 aa 77 is produced without a warning and decodes to an outer key of 0 (expected 8)"))
     return out
 
 
